@@ -222,7 +222,7 @@ Theorem refresh_text_rule ctx url title lt l :
   normalize_inline ctx (Link url title lt l) =
   if is_ref_url url then
     match lt with
-    | Regular => match ctx (key_from_file_name url) with
+    | Regular => match ctx (key_name url) with
                  | Some t => Link url title Regular [Str t]
                  | None => Link url title Regular l
                  end
@@ -232,7 +232,7 @@ Theorem refresh_text_rule ctx url title lt l :
   else Link url title lt l.
 Proof.
   cbn [normalize_inline]. destruct (is_ref_url url); [|reflexivity].
-  destruct lt; [destruct (ctx (key_from_file_name url))|..]; reflexivity.
+  destruct lt; [destruct (ctx (key_name url))|..]; reflexivity.
 Qed.
 
 (* ---------- C02: the inline rewrites are idempotent ------------------------------------------ *)
@@ -250,7 +250,7 @@ Proof.
     induction H as [|x l Hx _ IH]; cbn [map]; [reflexivity | now rewrite Hx, IH].
   - cbn [normalize_inline]. destruct (is_ref_url u) eqn:E.
     + cbn [normalize_inline]. rewrite E.
-      destruct lt; [destruct (ctx (key_from_file_name u)) eqn:Ec|..]; try rewrite Ec; reflexivity.
+      destruct lt; [destruct (ctx (key_name u)) eqn:Ec|..]; try rewrite Ec; reflexivity.
     + cbn [normalize_inline]. now rewrite E.
 Qed.
 
